@@ -477,6 +477,9 @@ impl Session {
                     }
                     num_adrreq = 0;
                     channel_mask_rfu = false;
+                    // A following block starts from the channel mask now in
+                    // force, not from the leftovers of a rejected block.
+                    channel_mask = region.channel_mask_get();
                 }
                 LinkCheckAns(..) => {
                     /* TODO: Payload contents are not consumed/handled
